@@ -364,7 +364,7 @@ package cluster
 //@   requires istype(c.message, *Deactivation) ==> c.message.(*Deactivation) != nil && c.message.(*Deactivation).PID != nil
 //@   requires istype(c.message, *ActorTopology) ==> c.message.(*ActorTopology) != nil && forall(k, 0 <= k && k < len(c.message.(*ActorTopology).Actors) ==> c.message.(*ActorTopology).Actors[k] != nil && c.message.(*ActorTopology).Actors[k].PID != nil)
 //@   requires istype(c.message, *ActivationRequest) ==> c.message.(*ActivationRequest) != nil
-//@   modifies heap except private, mapof(a.members.members), mapof(a.kinds), mapof(a.activated), log, loglen
+//@   modifies heap except private, mapof(a.members.members), mapof(a.kinds), mapof(a.activated), log, loglen, startPerm
 //@   ghost at call handleMembers#1 before: assert[C18.receive.snapshot-handled] arg0 == a && arg1 == c.message.(*Members).Members
 //@   ghost at call Respond#3 before: assert[C18.receive.members-query-answered-with-the-view] arg0 == c && complete(arg1.([]*Member), a.members) &&
 //@        forall(k, 0 <= k && k < len(arg1.([]*Member)) ==> has(a.members.members, arg1.([]*Member)[k].ID) && a.members.members[arg1.([]*Member)[k].ID] == arg1.([]*Member)[k]) && len(arg1.([]*Member)) == len(a.members.members)
@@ -445,7 +445,7 @@ package cluster
 //@ func (*Agent).handleActivationRequest(msg)
 //@   props C19
 //@   requires agentInv(a) && msg != nil && a.localKinds != nil
-//@   modifies heap except private, log, loglen
+//@   modifies heap except private, log, loglen, startPerm
 //@   ghost at call Spawn#1 before: assert[C19.request.spawns-the-registered-producer-under-kind-and-id] arg0 == a.cluster.engine && has(a.localKinds, msg.Kind) && arg1 == a.localKinds[msg.Kind].producer && arg2 == msg.Kind
 //@   ghost at call Spawn#1: spawnedPID = result
 //@   ghost at call WithID#1 before: assert[C19.request.with-the-requested-id] arg0 == msg.ID
@@ -484,7 +484,7 @@ package cluster
 //@ func (*Agent).activate(kind, config)
 //@   props C19
 //@   requires agentInv(a) && a.localKinds != nil && a.cluster.engine != nil
-//@   modifies heap except private, mapof(a.cluster.engine.Registry.lookup), log, loglen
+//@   modifies heap except private, mapof(a.cluster.engine.Registry.lookup), log, loglen, startPerm
 //@   ghost at call Result#1: assume[C19.reply-is-not-a-typed-nil] !(istype(result0, *ActivationResponse) && result0.(*ActivationResponse) == nil)
 //@   ghost at return#1: assert[C19.activate.known-id-returns-nil-and-does-nothing] old(has(a.activated, kind + "/" + config.id)) && result == nil && loglen == entry(loglen)
 //@   ghost at return#2: assert[C19.activate.no-capable-member-returns-nil-and-does-nothing] result == nil && loglen == entry(loglen) && forallS("Str", id, has(a.members.members, id) ==> !advertises(a.members.members[id], kind))
